@@ -73,15 +73,33 @@ def chain(prog, f, o, cont=(), depth=0):
                 out |= chain(prog, target, {"cp": {"l": 0}}, ((f, t["args"][0]),) + tuple(cont), depth + 1)
             elif FILTER.search(full) or PASS.search(full) or PASS.search(c):
                 out |= chain(prog, f, t["args"][0], cont, depth + 1)
+            elif prog.fn(f.crate, full) is not None and prog.fn(f.crate, full) is not f:
+                # a local helper: continue in its return value; its parameters map back to this call's arguments
+                h = prog.fn(f.crate, full)
+                out |= chain(prog, h, {"cp": {"l": 0}}, ((f, ("args", t)),) + tuple(cont), depth + 1)
             else:
                 out.add(("?" + c.split("::")[-1],))
         elif r[0] == "arg":
-            if f.kind == "Closure" and r[1] >= 2 and cont:
+            if cont:
                 pf, po = cont[0]
-                out |= chain(prog, pf, po, cont[1:], depth + 1)
-            elif f.kind != "Closure" and cont and r[1] >= 1:
-                pf, po = cont[0]
-                out |= chain(prog, pf, po, cont[1:], depth + 1)
+                if isinstance(po, tuple) and po[0] == "args":
+                    k = r[1] - 1
+                    if 0 <= k < len(po[1]["args"]):
+                        out |= chain(prog, pf, po[1]["args"][k], cont[1:], depth + 1)
+                    else:
+                        out.add(("?arg",))
+                elif f.kind == "Closure" and r[1] >= 2:
+                    out |= chain(prog, pf, po, cont[1:], depth + 1)
+                else:
+                    out.add(("?arg",))
+            elif f.kind == "Closure" and r[1] >= 2:
+                site = _closure_site(prog, f)
+                if site is None:
+                    out.add(("?arg",))
+                else:
+                    pf, at = site
+                    # the closure's parameter is an element of the adaptor's receiver
+                    out |= chain(prog, pf, at["args"][0], (), depth + 1)
             else:
                 out.add(("?arg",))
         elif r[0] == "const":
@@ -93,6 +111,19 @@ def chain(prog, f, o, cont=(), depth=0):
         else:
             out.add(("?" + str(r[0]),))
     return out
+
+
+def _closure_site(prog, g):
+    """(parent fn, call term) of the iterator adaptor / Option combinator that receives closure g"""
+    parent = prog.fn(g.crate, g.path.rsplit("::{closure", 1)[0])
+    if parent is None:
+        return None
+    for b, si_, s in parent.stmts():
+        if s["k"] == "assign" and s["rv"]["k"] == "agg" and s["rv"].get("closure") == g.path:
+            for u in forward_uses(parent, s["dst"]["l"]):
+                if u[0] == "call" and u[3] == 1:
+                    return parent, u[2]
+    return None
 
 
 def _str_consts(f, o):
@@ -173,12 +204,22 @@ def rule_directive(ctx, prop):
                 # --- effect
                 be = bool_edge(g, b)
                 is_ne = callee(t).endswith("::ne") or (t.get("fn") or "").endswith("::ne")
+                eg = g
+                if be is None and g.kind == "Closure" and not is_ne and \
+                        any(r[0] == "call" and r[2] == b for r in provenance(g, {"cp": {"l": 0}}, through=None)):
+                    # the closure returns the comparison: `iter.any(|line| line == "..")` in the parent
+                    site = _closure_site(prog, g)
+                    if site is not None and re.search(r"Iterator>?::any$|Iterator::any$", callee(site[1]).split("::<")[0]):
+                        eg = site[0]
+                        ab = [bb for bb, tt in eg.calls() if tt is site[1]]
+                        be = bool_edge(eg, ab[0]) if ab else None
                 if not rep.anchor(be is not None, f"{g.path}: comparison with `{lit}` is branched on", cfg):
                     continue
                 tb = be[1] if is_ne else be[0]
+                g_effect = eg
                 if path == SFN:
                     # the true edge returns Skip: every return reachable without passing another decision assigns Skip
-                    ok = _true_edge_returns(g, tb, "Skip")
+                    ok = _true_edge_returns(g_effect, tb, "Skip")
                     rep.inst(f"{g.key} match of `{lit}` returns FormatNode::Skip", None, cfg, ok=ok)
                     if not ok:
                         rep.violation(f"{f.key} directive-effect `{lit}`",
@@ -186,8 +227,8 @@ def rule_directive(ctx, prop):
                                       g.loc(t["sp"]), cfg)
                 else:
                     val = lit.endswith("start")
-                    flag = _assigned_bool(g, tb)
-                    ok = flag is not None and flag[1] == val and _flows_to_result(g, flag[0])
+                    flag = _assigned_bool(g_effect, tb)
+                    ok = flag is not None and flag[1] == val and _flows_to_result(g_effect, flag[0])
                     rep.inst(f"{g.key} match of `{lit}` sets formatting_disabled = {str(val).lower()}", None, cfg, ok=ok)
                     if not ok:
                         rep.violation(f"{f.key} directive-effect `{lit}`",
